@@ -427,7 +427,7 @@ impl<'tcx> M<'tcx> {
                     for x in l {
                         match x {
                             V::Str(s) => pieces.push(s),
-                            V::T(t) => self.events.push(Event::FmtVal(t)),
+                            V::T(t) => self.events.push(Event::FmtArg(t)),
                             _ => {}
                         }
                     }
@@ -440,7 +440,20 @@ impl<'tcx> M<'tcx> {
             // keep only literal pieces and formatted leaves
             let mut l = vec![];
             for (v, t) in vals.iter() {
-                let (dv, _) = self.deref_arg(v, *t).unwrap_or((v.clone(), *t));
+                // arguments are references (possibly to references) to the formatted values: follow them down to the value
+                let (mut dv, mut dt) = (v.clone(), *t);
+                for _ in 0..4 {
+                    match (&dv, dt.kind()) {
+                        (V::Ptr(_), ty::Ref(..)) | (V::Ptr(_), ty::RawPtr(..)) => match self.deref_arg(&dv, dt) {
+                            Ok((nv, nt)) => {
+                                dv = nv;
+                                dt = nt;
+                            }
+                            Err(_) => break,
+                        },
+                        _ => break,
+                    }
+                }
                 flatten(&dv, &mut l);
             }
             let keep: Vec<V<'tcx>> = l.into_iter().filter(|x| matches!(x, V::Str(_) | V::T(_))).collect();
